@@ -583,7 +583,11 @@ def get_sort(node):
         return __get_sort_cache[node.id]
     if node in __get_sort_cache:
         return __get_sort_cache[node]
-    sort = _get_sort_aux(node)
+    try:
+        sort = _get_sort_aux(node)
+    except (IndexError, ValueError):
+        # malformed term, e.g. missing operands or non-numeric indices
+        sort = None
     __get_sort_cache[node.id] = sort
     __get_sort_cache[node] = sort
     return sort
